@@ -269,6 +269,16 @@ impl<'a> Sess<'a> {
         self.out.ev(json!({"op":"Upd3","ids":ids,"c":pair(c),"st":sts,"o":os,"tok":toks}));
     }
 
+    /// two sketches that must report bit-identical estimates and bounds (a sketch and its decoded copy
+    /// after the same further updates)
+    pub fn cmp(&mut self, a: usize, b: usize) {
+        if self.dead {
+            return;
+        }
+        let (ta, tb) = (tok(self.sk[a].as_ref().unwrap()), tok(self.sk[b].as_ref().unwrap()));
+        self.out.ev(json!({"op":"Cmp","a":a,"b":b,"same":ta == tb,"tok":[ta, tb]}));
+    }
+
     pub fn chk(&mut self, id: usize) {
         if self.dead {
             return;
@@ -448,8 +458,14 @@ fn triplet_random(out: &mut Shards, rng: &mut Rng, lgk: u8, n: usize, dup_pct: u
             let which = rng.below(3) as usize;
             let to = s.rt(ids[which]);
             if !s.dead {
-                let (sl, v) = refhash::hll_coupon(&rng.next());
-                s.upd(to, pack(sl, v as u32));
+                // the original and the copy take the same further coupons: bit-identical numbers and images
+                // (the whole triplet takes them, so that it stays a triplet)
+                for _ in 0..3 {
+                    let (sl, v) = refhash::hll_coupon(&rng.next());
+                    s.upd3(ids, pack(sl, v as u32), None);
+                    s.upd(to, pack(sl, v as u32));
+                }
+                s.cmp(ids[which], to);
                 s.chk(to);
             }
         }
